@@ -190,14 +190,17 @@ PROPERTIES = {
     "C09": {
         "level": "other",
         "verus_units": ["leaves"],
-        "kani": ["display::display_default", "display::display_precision", "display::display_plus", "display::display_lower_hex", "display::display_binary", "display::display_width_precision"],
+        "kani": ["display::display_default", "display::display_precision", "display::display_plus", "display::display_lower_hex", "display::display_binary", "display::display_width_precision", "display::display_lower_hex_u16"],
         "kani_thorough": ["display::display_sign", "display::display_zero_pad", "display::display_width", "display::display_width_precision_left", "display::display_width_precision_zero", "display::display_upper_hex",
-                          "display::display_octal", "display::display_alt_hex"],
+                          "display::display_octal", "display::display_alt_hex", "display::display_octal_u16", {"harness": "display::display_default_u16", "timeout": 3000}],
         "explanation": "BOUNDED: the real fmt_dec / fmt_radix2 (run-time frac_nbits through the hook new-types) on every 8-bit value and all nine "
                        "layouts: `{}` is the correct rounding at the digits shown and lies within half an ulp (round trip); `{:.p}` for p <= 9 is the "
                        "exactly rounded expansion; sign / + / zero padding / width only add prefix and padding; "
-                       "radix 2, 8, 16 outputs are exact",
-        "bounded_parts": ["8-bit layouts only; precision <= 9; width <= 12; one flag at a time; core::str::from_utf8 stubbed by its unchecked variant"],
+                       "radix 2, 8, 16 outputs are exact; and on every 16-bit value and all 17 layouts (the per-width code of impl_radix_helper! that the 8-bit "
+                       "instance never runs: u16 delegates to the u8 helper when fewer than 8 bits are in use): `{:x}` exact (quick), `{:o}` exact and `{}` "
+                       "well formed and within half an ulp, i.e. round-trip safe (thorough).  Verus: the width-specific leaves Mul10 x5 and ceil_log10_2_times for all inputs",
+        "bounded_parts": ["8-bit layouts (all formats and flags) and 16-bit layouts (`{:x}`, `{:o}`, `{}`) only; precision <= 9; width <= 12; one flag at a time; "
+                          "core::str::from_utf8 stubbed by its unchecked variant; the formatter of the 32..128-bit types is covered by the leaf proofs only"],
     },
     "C12": {
         "level": "proof",
